@@ -113,6 +113,15 @@ def gen_case(rng, tier):
         case_["config"]["p_switch"] = rng.choice((2, 4, 8))
     if u8:
         case_["inputs"]["rep1"] = case_["inputs"]["rep2"] = "u8"
+    elif A and B and rng.random() < 0.12:
+        how = rng.choice(dgmgen.SHARED)
+        if how in ("cols4", "interleave", "window"):
+            n_ = min(len(A), len(B))
+            A, B = A[:n_], B[:n_]
+            if how == "window" and n_ >= 2:
+                k_ = rng.randint(1, n_ - 1)
+                B = A[k_:] + B[:k_]
+        case_["inputs"].update(dgm1=A, dgm2=B, rep1="f64", rep2="f64", shared=how)
     return case_
 
 
@@ -144,6 +153,16 @@ def run_case(case, sched):
     _layers_max[0] = 0
     A = dgmgen.materialize(inp["dgm1"], inp.get("rep1", "f64"))
     B = dgmgen.materialize(inp["dgm2"], inp.get("rep2", "f64"))
+    shared_used = 0
+    if inp.get("shared") is not None:
+        # both diagrams are views into one buffer of the caller
+        if inp["shared"] not in dgmgen.SHARED:
+            raise InvalidCase("shared")
+        vw_ = dgmgen.shared_views(inp["dgm1"], inp["dgm2"], inp["shared"]) \
+            if inp.get("rep1", "f64") == "f64" and inp.get("rep2", "f64") == "f64" else None
+        if vw_ is not None:
+            A, B = vw_
+            shared_used = 1
     # the oracle starts from the values the handed-over objects denote (narrow floats are rounded values)
     ptsA, ptsB = dgmgen.as_points(A), dgmgen.as_points(B)
     SA, TB = rm.finite_part(ptsA), rm.finite_part(ptsB)
@@ -264,6 +283,7 @@ def run_case(case, sched):
     D_cands = np.concatenate([rm.linf_costs(SA, TB)[0].ravel(), 0.5 * (SA[:, 1] - SA[:, 0]),
                               0.5 * (TB[:, 1] - TB[:, 0])]) if len(SA) + len(TB) else np.zeros(0)
     probes = {
+        "pair_views_of_one_buffer": shared_used,
         "tie_at_optimum": int((D_cands == ref).sum() > 1),
         "optimum_is_diagonal_cost": int(len(SA) + len(TB) > 0 and (
             (0.5 * (SA[:, 1] - SA[:, 0]) == ref).any() or (0.5 * (TB[:, 1] - TB[:, 0]) == ref).any())),
@@ -325,6 +345,10 @@ def shrink_candidates(case):
         c = copy.deepcopy(case)
         for i in reversed(idx):
             del c["config"]["hashseeds"][i]
+        yield c
+    if case["inputs"].get("shared") is not None:
+        c = copy.deepcopy(case)
+        c["inputs"]["shared"] = None
         yield c
     for rep in ("rep1", "rep2"):
         if case["inputs"].get(rep) != "f64":
